@@ -525,6 +525,37 @@ class RefSpace:
             down = self.move(down, c, -1)
         return [up] if desc[1] else [up, down]
 
+    def reach(self, start, depth, steps):
+        """Configurations reached by all histories of exactly 1..depth operator applications:
+        (lower bound without Decrease_several, upper bound with both readings of Decrease_several)."""
+        descs = [self.op_desc(o) for o in self.operator_names()]
+
+        def level(front, both):
+            out = set()
+            for cid in front:
+                choice = self.parse(cid)
+                for d in descs:
+                    for step in steps:
+                        if d[0] == 'several':
+                            if not d[1] and not both:
+                                continue
+                            k = max(0, min(step, len(self.names)))
+                            for ans in itertools.product(self.names, repeat=k):
+                                for c in self.apply(choice, d, step, ans):
+                                    out.add(self.cid(c))
+                        else:
+                            out.add(self.cid(self.apply(choice, d, step)[0]))
+            return out
+
+        res = []
+        for both in (False, True):
+            front, seen = {self.cid(start)}, set()
+            for _ in range(depth):
+                front = level(front, both)
+                seen |= front
+            res.append(seen)
+        return res[0], res[1]
+
     def steps_for(self, desc):
         if desc[0] in ('inc', 'dec'):
             s = len(self.ctrl[desc[1]])
@@ -1019,18 +1050,16 @@ def tasks(tier, seed):
             t.append(dict(part='ops', st=st['name'], seed=seed, tier=tier, starts=ids[i:i + per]))
     for st in sts:
         t.append(dict(part='hidden', st=st['name'], seed=seed, tier=tier))
-    depth = 2 if tier == 'quick' else 3
+    # every operator history: depth 2 with steps {1, 2}; thorough adds depth 3 (steps {1, 2} for <= 2 controllers,
+    # step 1 for 3 controllers) and depth 4 with step 1 for <= 2 controllers
     for st in sts:
         sp = RefSpace(st)
         for cid in sp.all_ids():
-            if depth == 3 and len(sp.names) >= 3:
-                # split the first level so that a task stays within a few seconds
-                ops = sp.operator_names()
-                for i in range(0, len(ops), 4):
-                    t.append(dict(part='chains', st=st['name'], seed=seed, tier=tier, start=cid, depth=depth,
-                                  first_ops=ops[i:i + 4]))
-            else:
-                t.append(dict(part='chains', st=st['name'], seed=seed, tier=tier, start=cid, depth=depth, first_ops=None))
+            plans = [(2, [1, 2])]
+            if tier == 'thorough':
+                plans = [(2, [1, 2]), (3, [1])] if len(sp.names) >= 3 else [(3, [1, 2]), (4, [1])]
+            for depth, steps in plans:
+                t.append(dict(part='chains', st=st['name'], seed=seed, tier=tier, start=cid, depth=depth, steps=steps))
     return t
 
 
@@ -1346,9 +1375,6 @@ def _ops(task, st, space, rec, vio_factory):
                         if not moved <= set(picked):
                             vio('operator-result-differs-from-model', f'{opname} moved {sorted(moved)} but drew {picked}',
                                 picked, sorted(moved))
-                        if len(picked) != max(0, min(step, len(space.names))):
-                            vio('operator-result-differs-from-model',
-                                f'{opname} step {step} drew {len(picked)} controllers of {len(space.names)}', None, len(picked))
                     # the real object after the transition: inspected and evaluated through the engine
                     if cur != new_id:
                         vio('object-state-differs-from-returned-configuration', f'after {opname}({cid!r}, {step}): object in {cur!r}, '
@@ -1501,14 +1527,13 @@ def _chains(task, st, space, rec, vio_factory):
     opnames = [o for o in sorted(ops) if o in set(space.operator_names())]
     descs = {o: space.op_desc(o) for o in opnames}
     depth = task['depth']
-    steps = (1, 2)
+    steps = tuple(task['steps'])
     seen_canon = {}
     vio = vio_factory('chain')
     counter = {'n': 0}
 
     def explore(cid, history, level):
-        names = task['first_ops'] if (level == 0 and task.get('first_ops')) else opnames
-        for opname in names:
+        for opname in opnames:
             if opname not in ops:
                 continue
             desc = descs[opname]
@@ -1556,9 +1581,21 @@ def _chains(task, st, space, rec, vio_factory):
     rec.observe((task['start'], counter['n'], sorted(seen_canon)))
     rec.sample(dict(part='chains', structure=st['name'], start=task['start'], depth=depth, histories=counter['n'],
                     states_reached=len(seen_canon)))
-    if not task.get('first_ops') and set(seen_canon) != idset:
-        vio('not-every-configuration-reachable', f'from {task["start"]!r} within depth {depth}: reached {sorted(seen_canon)}',
-            sorted(idset), sorted(seen_canon))
+    # the set of configurations reached must be the one the reference model reaches with the same histories
+    required, allowed = space.reach(space.parse(task['start']), depth, steps)
+    if not (required <= set(seen_canon) <= allowed):
+        vio('reached-set-differs-from-model', f'from {task["start"]!r} within depth {depth}, steps {steps}: reached '
+            f'{sorted(seen_canon)}; model requires {sorted(required)} and allows {sorted(allowed)}',
+            sorted(required), sorted(seen_canon))
+    rec.count('chain_tasks_reaching_the_whole_product', int(set(seen_canon) == idset))
+
+
+def on_abort(task, info):
+    """The worker process died while exploring a valid structure: an observed outcome of the library/engine."""
+    key = f'C16|process-aborted-on-a-valid-structure|{task.get("st")}:{task.get("part")}'
+    return dict(key=key, what=f'[{task.get("st")}] the process died (exit {info.get("exitcode")}) during part {task.get("part")}: '
+                f'{(info.get("log_tail") or "")[-300:]}', case=dict({k: v for k, v in task.items() if k != 'fresh'}, key=key),
+                expected='no abort', observed=f'exit {info.get("exitcode")}')
 
 
 # =========================================================================== cross-task oracle
